@@ -21,7 +21,7 @@ PROPS = {
                  '1/GSNR = 1/OSNR_ASE + 1/SNR_NLI proved on the figures the receiver reports, also after update_snr.',
         'level_note': 'exact real arithmetic instead of floats; numpy element-wise semantics assumed; NLI <= channel power is a stated '
                       'precondition of add_nli; every accessor of the class (signal / ase / nli in W and dBm, the SNR figures and their '
-                      '0.1 nm versions) is proved to state the share it is named after; a merge of three bands keeps every channel; '
+                      '0.1 nm versions) and the per-channel records of `carriers` are proved to state the share they are named after; a merge of three bands keeps every channel; '
                       'RamanFiber.propagate is proved with the Raman solver opaque',
         'trusted': NUMPY_TRUST,
         'assumptions': ['NLI handed to add_nli lies in [0, channel power] (the property limits itself to launch powers '
@@ -37,7 +37,9 @@ PROPS = {
                  'polynomial, dual-stage Friis composition, band filter: all proved on the real functions.',
         'level_note': '_gain_profile (polyfit + secant step of the DGT model) is an assumed contract (one gain per channel) in '
                       'the proofs; that its profile delivers the effective gain is a bounded stand-in (four shipped amplifier '
-                      'models x gains x tilts x input shapes, 0.02 dB)',
+                      'models x gains x tilts x input shapes, 0.02 dB); a one-channel spectrum is amplified like any other (F16, fixed); '
+                      'that a library entry carries the band / ripples / tilt shape of the configuration file it names, and the order '
+                      'of the OpenROADM NF polynomial through the YANG form, are a bounded stand-in and a converter contract',
         'trusted': NUMPY_TRUST + ['Edfa._gain_profile (assumed contract)'],
         'extra': [{'name': 'amp_gain', 'kind': 'bounded', 'script': 'bounded/amp_gain.py', 'timeout': 1200},
                   {'name': 'params_load', 'kind': 'bounded', 'script': 'bounded/params_load.py', 'timeout': 900}],
@@ -52,7 +54,8 @@ PROPS = {
                       'that each add / drop / express crossing reads the impairment set of its own type (or the set declared for '
                       'that pair of degrees) is a bounded stand-in on designed meshes; single-policy enforcement is proved for '
                       'RoadmParams.__init__ (a target of 0 is a target) and for the per-degree design loop '
-                      '(set_roadm_per_degree_targets), merge_equalization is not under contract',
+                      '(set_roadm_per_degree_targets); a filled per-degree target cell of a Roadms sheet (0 included) lands on the '
+                      'degree facing the neighbour (create_roadm_element); merge_equalization is not under contract',
         'trusted': NUMPY_TRUST + ['Roadm.get_impairment (assumed contract)'],
         'extra': [{'name': 'roadm_paths', 'kind': 'bounded', 'script': 'bounded/roadm_paths.py', 'timeout': 1200}],
     },
@@ -67,7 +70,8 @@ PROPS = {
                       'multi-band amplifier dispatch are not under contract: the clauses "channels outside the common band removed '
                       'once, the others kept once through any mix of single- and multi-band amplifiers" are a bounded stand-in '
                       '(random band sets against an interval-intersection oracle; six amplifier mixes of the shipped multiband '
-                      'library with channels placed around every band edge)',
+                      'library with channels placed around every band edge); user-spectrum documents of two partitions (gap / '
+                      'touching / overlapping / same carrier) are a bounded stand-in (_spectrum_from_json is not under contract)',
         'trusted': NUMPY_TRUST,
         'extra': [{'name': 'bands', 'kind': 'bounded', 'script': 'bounded/bands.py', 'timeout': 1800}],
     },
@@ -82,8 +86,9 @@ PROPS = {
                       'update_snr proved for up to three contributions; the automatic mode search loop '
                       '(propagate_and_optimize_mode: ordering by baud rate then bit rate, blocking reasons) is not under contract '
                       'but a bounded stand-in against fixed-mode planning of every mode (random synthetic libraries, modes of one '
-                      'baud rate sharing one power offset); penalty tables / out-of-table blocking / successive-mode histories '
-                      'are a bounded stand-in',
+                      'baud rate sharing one power offset); penalty tables / out-of-table blocking / successive-mode histories, '
+                      'the planner\'s fixed-mode verdict with penalty tables end to end, and which add / drop impairment set a '
+                      'crossing counts, are bounded stand-ins',
         'trusted': NUMPY_TRUST + ['numpy.argmin (an index attaining the minimum)', 'propagate call-site summary'],
         'extra': [{'name': 'penalties', 'kind': 'bounded', 'script': 'bounded/penalties.py'},
                   {'name': 'mode_search', 'kind': 'bounded', 'script': 'bounded/mode_search.py', 'timeout': 2400},
@@ -102,7 +107,9 @@ PROPS = {
                       'entry over a two-OMS list (path over one or both); map sizes, extents and contents unbounded. '
                       'The history clause (occupancy = union of accepted ranges, pairwise disjoint) follows by induction '
                       'from the per-call contract (DESIGN 4, C14) and is not a separate machine-checked lemma. User-fixed '
-                      'N outside the map raises ValueError (F11, precondition).',
+                      'N outside the map raises ValueError (F11, precondition). Requests with several (N, M) entries, fixed, free '
+                      'or mixed, are outside the contracts and checked by a bounded stand-in from the service document to the '
+                      'assignment (used as given, or refused / blocked; no exception, no planner that does not return)',
         'trusted': SPECTRUM_TRUST,
         'extra': [{'name': 'order_slots', 'kind': 'bounded', 'script': 'bounded/order_slots.py'},
                   # service documents with N / M fixed, free or mixed in several entries, loaded and planned end to end
@@ -114,9 +121,10 @@ PROPS = {
                  'arbitrary map (any number of maps) and create_oms_bitmap (1-3 common bands) proved for all extents: '
                  'every map covers n(f_min)..n(f_max), usable exactly inside the common bands, indices unique and '
                  'consecutive, old occupancy kept at its index.',
-        'level_note': 'the OMS partition of the graph (build_oms_list walk, reversed_oms pairing) is a bounded stand-in on '
-                      'designed topologies <= 4 ROADM sites + the shipped multiband example; find_elements_common_range is '
-                      'a ghost parameter here',
+        'level_note': 'the OMS partition of the graph (build_oms_list walk) is a bounded stand-in on '
+                      'designed topologies <= 4 ROADM sites + the shipped multiband example; reversed_oms is proved for three OMS '
+                      'with arbitrary end names (first opposite direction, unpaired recorded as None); '
+                      'find_elements_common_range is a ghost parameter here; lines must run from ROADM to ROADM',
         'trusted': SPECTRUM_TRUST[:2],
         'extra': [{'name': 'oms_partition', 'kind': 'bounded', 'script': 'bounded/oms_partition.py', 'timeout': 1200}],
     },
@@ -129,8 +137,10 @@ PROPS = {
                  'set); per-degree ROADM targets populated with exactly one policy.',
         'level_note': 'graph-level claims (one-in/one-out chains, unique names, reachability, every junction amplified, equal '
                       'split of long fibres) are a bounded stand-in: real designed_network on topologies <= 4 ROADM sites (Span max_length '
-                      '60 / 100 / 150 km, C+L multi-band ROADMs, a Raman span with default connectors); a Raman span behind an amplifier '
-                      'without delta_p cannot be designed (known finding F24); '
+                      '60 / 100 / 150 km, C+L multi-band ROADMs given or by default, spliced short spans, splices in front of an amplifier, '
+                      'fibres with per-frequency tables and lumped losses through the split, a Raman span with default connectors); a Raman '
+                      'span behind an amplifier without delta_p cannot be designed (known finding F24), a RamanFiber without con_out '
+                      'cannot be loaded (known finding F40); Fiber.loss is proved to be the loss budget (scalar loss coefficient); '
                       'span_loss / get_next_node / find_first_node are ghost parameters (networkx assumed)',
         'trusted': ['networkx DiGraph accessors (ghost successors/first node of a span)'],
         'extra': [{'name': 'design_complete', 'kind': 'bounded', 'script': 'bounded/design_complete.py', 'timeout': 1500}],
@@ -143,7 +153,7 @@ PROPS = {
                  'set_one_amplifier with an operator-chosen model (reduction exactly as needed against p_max in power and '
                  'gain mode, hand-over to the next amplifier = power after the VOA); set_amplifier_voa compensation.',
         'level_note': 'the per-band line-head initialisation of set_egress_amplifier (transmitter launch power or the degree\'s ROADM target) is proved; the rest of the OMS walk is checked bounded on designed small topologies (gain = loss + '
-                      'change of target along every OMS); "propagating the design load reproduces the powers" depends on '
+                      'change of target along every OMS); the Raman gain estimate is proved to probe the fibre behind padding and input connector; "propagating the design load reproduces the powers" depends on '
                       'the gain-profile normalisation (C04, not proved) and is not claimed; span_loss is a ghost',
         'trusted': ['span_loss (graph walk) as a ghost function of (network, node)'],
         'extra': [{'name': 'design_power_budget', 'kind': 'bounded', 'script': 'bounded/design_complete.py', 'args': ['--powers'],
@@ -159,7 +169,10 @@ PROPS = {
         'level_note': 'library size fixed to three models in the select_edfa contract; edfa_nf is an assumed pure function '
                       '(NF models are C04); capability uses the strict inequalities of the code; the loop body of the multiband '
                       'preselection is proved to rate every band against that band\'s own gain / power / tilt targets and the library\'s '
-                      'extended-gain allowance (the rating function opaque); dual-stage entries take the output stage\'s p_max',
+                      'extended-gain allowance (the rating function opaque) and never to widen the permitted set; the band loop of a '
+                      'multi-band amplifier is proved to offer each band the amplifiers that cover it and complete a type compatible with '
+                      'the bands already chosen (nine structure-fixed variants, the selection opaque); whole multi-band designs on '
+                      'synthetic libraries of types sharing band amplifiers are a bounded stand-in; dual-stage entries take the output stage\'s p_max',
         'trusted': ['edfa_nf as a pure function of (gain, model)'],
         'extra': [{'name': 'amp_selection', 'kind': 'bounded', 'script': 'bounded/amp_selection.py', 'timeout': 1800}],
     },
@@ -199,8 +212,9 @@ PROPS = {
                  'fibre\'s dispersion and slope; RamanFiber.propagate applies padding + input connector before and the output '
                  'connector after the Raman solver\'s profile and adds its ASE once; ROADM and amplifier PMD/PDL in quadrature '
                  '(C06/C04 contracts).',
-        'level_note': 'scalar loss coefficient and scalar dispersion (per-frequency tables go through an interpolation that is not '
-                      'modelled); _create_lumped_losses + cumprod is an assumed contract checked bounded (it fails for two lumped '
+        'level_note': 'scalar loss coefficient and scalar dispersion in the propagation proofs; a per-frequency loss table is proved to be '
+                      'read at the frequencies asked for (the interpolation itself is scipy\'s, an assumed pure function; tables listed in '
+                      'any order are a bounded stand-in); _create_lumped_losses + cumprod is an assumed contract checked bounded (it fails for two lumped '
                       'losses at one position: known finding F7). The Raman-on clauses (low-power limit, perturbative vs numerical, '
                       'pumps only add gain, lumped losses once) are statements about numerical ODE solvers: the solver calls are '
                       'opaque in the RamanFiber proof and those clauses are a bounded stand-in (6 channels, span lengths off the '
@@ -241,8 +255,9 @@ PROPS = {
                  'running the real compute_path_dsjctn on small designed meshes against an independent oracle.',
         'level_note': 'NOT an unbounded proof: compute_path_dsjctn (250 lines of nested candidate pruning over id()-keyed dicts) '
                       'is outside the reach of the contract engine; bounded: topologies ring3, ring4, mesh4, house5[, full4], '
-                      'pairs over 6x8 ordered site pairs with brute-force completeness, triples, overlapping groups, include '
-                      'constraints',
+                      'pairs over 6x8 ordered site pairs with brute-force completeness, triples, overlapping groups, identical '
+                      'requests aggregated inside several groups, pairs whose first request carries a route list of 1 - 3 hops (every '
+                      'STRICT / LOOSE mix, unknown names, hops inside a line) against an element-level brute-force search',
         'trusted': [],
         'extra': [{'name': 'disjunction', 'kind': 'bounded', 'script': 'bounded/disjunction.py', 'timeout': 1500}],
     },
@@ -274,7 +289,9 @@ PROPS = {
                  'results reproduced) is a bounded stand-in through the real designed_network / network_to_json / '
                  'network_from_json.',
         'level_note': 'NOT an unbounded proof of the fixed point: network_from_json (loader) and build_network as a whole are not '
-                      'under contract; per-frequency loss coefficients, RamanFiber and Multiband exports are not under contract; '
+                      'under contract; per-frequency loss coefficients and RamanFiber exports are not under contract (Multiband_amplifier '
+                      'and the ROADM design bands are); "the same input twice" is also checked across interpreter runs with different '
+                      'string-hash seeds; '
                       'estimate_raman_gain is proved with its two physics callees opaque (assumed not to write SimParams) and '
                       'only for normal return - an exception inside the Raman solver leaves the temporary settings in place; '
                       'bounded: line2, ring3, star4[, line3, mesh4] x spans x junctions x power/gain mode x out_voa_auto, per-degree '
@@ -339,7 +356,8 @@ PROPS = {
                       'and correct_xls_route_list are outside the contract engine (string-keyed graphs of arbitrary size) and only '
                       'checked bounded; route lists and disjoint-from lists are fixed texts in the contracts (str.split on a '
                       'symbolic cell is not modelled); .xls files are only read from the shipped examples (no writer installed); '
-                      'bounded: 6 topologies x 5 Links variants x 6 Eqpt/Roadms variants, 18 malformed workbooks, 12+ service rows',
+                      'bounded: 7 topologies x 5 Links variants x 6 Eqpt/Roadms variants, 18 malformed workbooks, 12+ service rows, FUSED sites of '
+                      'wrong degree, route lists through amplifier sites declared fused',
         'trusted': ['xls_utils.correct_cell_int_to_str (assumed identity on text cells)', 'str.split on constant texts',
                     'openpyxl / xlrd readers (used as they are by the bounded stand-in)'],
         'extra': [{'name': 'workbook', 'kind': 'bounded', 'script': 'bounded/workbook.py', 'timeout': 2400}],
